@@ -22,6 +22,8 @@ def main():
         os.environ["PYTHONHASHSEED"] = "0"
         os.execv(sys.executable, [sys.executable] + sys.argv)
     os.environ["VERIF_TIER"] = a.tier
+    import warnings
+    warnings.filterwarnings("ignore", category=SyntaxWarning)
     os.environ.pop("GCMPY_VERIF", None)
     seed = int(os.environ.get("VERIF_SEED", "0") or 0)
     from core import common, runner
